@@ -17,6 +17,7 @@ import TdVerif.Lemmas.C15Wrap
 import TdVerif.Lemmas.C15Fields
 import TdVerif.Lemmas.C15Update
 import TdVerif.Lemmas.C15SetInplace
+import TdVerif.Lemmas.C15Pytree
 
 namespace TdVerif.Props.C15
 open TdVerif.C15 TdVerif.Gen.Tc
@@ -942,6 +943,49 @@ theorem set_tuple_drops_inplace_pinned_counterexample :
     unwrapEntry, Except.bind, bind]
 
 end inplace
+
+/-! ### pytree registration: `tree_flatten` / `tree_unflatten` / `tree_map` on a tensorclass -/
+section pytree
+variable {T V : Type}
+
+/-- `tree_unflatten(tree_flatten(tc))` rebuilds the instance: same class, same entries in the same order, same placeholders
+(the tensordict of the copy is a new, unlocked one) -/
+theorem pytree_roundtrip (fields : List String) (tc : TC (TDm T V) V) (hwf : WF fields tc) (hpl : PlaceholdersOnly tc) :
+    pytreeUnflatten fields tc.cls (pytreeFlatten tc).1 (pytreeFlatten tc).2
+      = .ok ⟨tc.cls, ⟨tc.td.entries, false⟩, tc.nt⟩ := by
+  have h := fromTensordict_of_wf fields tc hwf hpl
+  unfold pytreeUnflatten pytreeFlatten
+  simp only
+  rw [h]
+  simp only [TDm.keys, zip_map_fst_snd]
+
+/-- `tree_map(f, tc)`: whatever the new leaves are (one per entry), the result is an instance of the same class with the
+same key set and the same placeholders, and it is well formed -/
+theorem pytree_map_keeps_structure (fields : List String) (tc : TC (TDm T V) V) (hwf : WF fields tc)
+    (hpl : PlaceholdersOnly tc) (values : List (Entry T V)) (hlen : values.length = tc.td.entries.length) :
+    ∃ tc', pytreeUnflatten fields tc.cls values (pytreeFlatten tc).2 = .ok tc'
+      ∧ tc'.cls = tc.cls ∧ tc'.td.keys = tc.td.keys ∧ tc'.nt = tc.nt ∧ WF fields tc' := by
+  have hk : ((tc.td.keys.zip values).map Prod.fst) = tc.td.keys :=
+    map_fst_zip_of_length _ _ (by simp [TDm.keys, hlen])
+  have hkeys : (⟨tc.td.keys.zip values, false⟩ : TDm T V).keys = tc.td.keys := hk
+  refine ⟨⟨tc.cls, ⟨tc.td.keys.zip values, false⟩, tc.nt⟩, ?_, rfl, hkeys, rfl, ?_⟩
+  · have h := fromTensordict_of_wf fields tc hwf hpl
+    unfold pytreeUnflatten pytreeFlatten
+    simp only
+    rw [h]
+  · refine ⟨?_, hwf.nt_sub, ?_, ?_, hwf.nt_nodup⟩
+    · intro k hk'
+      rw [hkeys] at hk'
+      exact hwf.td_sub k hk'
+    · intro f hf
+      rcases hwf.cover f hf with h | h
+      · left; rw [hkeys]; exact h
+      · exact Or.inr h
+    · intro k hk' hnt
+      rw [hkeys] at hk'
+      exact hwf.disj k hk' hnt
+
+end pytree
 
 -- non-vacuity: concrete, non-trivial values satisfying the hypotheses used above
 example : Matching ["x", "s", "o"] ["x", "s"] ([("o", none)] : NT Nat) := by
